@@ -65,6 +65,53 @@ def run_replay_subprocess(pid, path, timeout=600):
     return None, out
 
 
+def validate_samples(pid, mod, jobs, results, harness_errors, limit=6):
+    """differential validation of the environment stubs: concrete models sampled from the explored paths are run through the
+    harness twice - in this process (stubs installed: numpy shim, python kernels, proxy-aware builtins) and in a fresh subprocess on
+    the unpatched code (real numpy/numba/pandas) - and the observations (event counters, obligations passed/failed) must agree"""
+    from .engine.concrete import digest_harness
+    byname = {j.name: j for j in jobs}
+    items = []
+    for r in results:
+        j = byname.get(r.name)
+        if j is None or j.opts.get('fork_per_path') or j.fn.__name__ not in getattr(mod, 'JOBFN', {}):
+            continue
+        for smp in r.samples[:1]:
+            if smp.get('model'):
+                items.append({'fn': j.fn.__name__, 'kwargs': r.bounds, 'model': smp['model'], 'job': r.name})
+        if len(items) >= limit:
+            break
+    if not items:
+        return {'samples': 0}
+    here = [digest_harness(mod.JOBFN[it['fn']], it['kwargs'], it['model']) for it in items]
+    d = os.path.join(ROOT, '.work')
+    os.makedirs(d, exist_ok=True)
+    path = os.path.join(d, 'digest_%s_%d.json' % (pid, os.getpid()))
+    with open(path, 'w') as f:
+        json.dump(_jsonable(items), f)
+    env = dict(os.environ)
+    env['PYTHONPATH'] = ROOT + ':' + os.environ.get('VF_REPO', '/repo')
+    try:
+        p = subprocess.run([sys.executable, '-m', 'vf', pid, '--digest', path], cwd=ROOT, env=env, capture_output=True, text=True, timeout=900)
+    finally:
+        try:
+            os.remove(path)
+        except OSError:
+            pass
+    line = [l for l in p.stdout.splitlines() if l.startswith('DIGESTS ')]
+    if not line:
+        raise RuntimeError('no digests from the unpatched run: ' + (p.stderr or p.stdout)[-400:])
+    there = json.loads(line[-1][8:])
+    agree = 0
+    for it, a, b in zip(items, here, there):
+        if json.loads(json.dumps(_jsonable(a))) == b:
+            agree += 1
+        else:
+            harness_errors.append('shim validation: stubbed and unpatched pipelines disagree on a concrete sample of %s: stubbed=%s unpatched=%s'
+                                  % (it['job'], json.dumps(_jsonable(a))[:300], json.dumps(b)[:300]))
+    return {'samples': len(items), 'agree': agree, 'what': 'concrete models from explored paths run through the stubbed and the unpatched pipeline; event counters and obligation outcomes compared'}
+
+
 def main(argv):
     import argparse
     ap = argparse.ArgumentParser()
@@ -75,6 +122,7 @@ def main(argv):
     ap.add_argument('--inline', action='store_true')
     ap.add_argument('--budget', type=float, default=None)
     ap.add_argument('--no-evidence', action='store_true')
+    ap.add_argument('--digest', default=None, help='internal: run the listed concrete samples on the unpatched code and print their digests')
     args = ap.parse_args(argv)
     pid = args.pid.upper()
     tier = args.tier if args.tier in ('quick', 'thorough') else 'quick'
@@ -83,6 +131,20 @@ def main(argv):
     except ValueError:
         seed = 0
     mod = importlib.import_module('vf.harness.' + pid.lower())
+
+    if args.digest:
+        from .engine.concrete import digest_harness
+        with open(args.digest) as f:
+            items = json.load(f)
+        if hasattr(mod, 'prepare_concrete'):
+            mod.prepare_concrete()
+        elif getattr(mod, 'S', None) is not None and hasattr(mod.S, 'install_monitors'):
+            mod.S.install_monitors()  # recording wrappers only; no stubs
+        out = []
+        for it in items:
+            out.append(digest_harness(mod.JOBFN[it['fn']], it['kwargs'], it['model']))
+        print('DIGESTS ' + json.dumps(_jsonable(out)))
+        return EXIT_OK
 
     if args.replay:
         with open(args.replay) as f:
@@ -121,6 +183,14 @@ def main(argv):
     if hasattr(mod, 'extra_checks'):
         extra = mod.extra_checks(tier, seed) or {}
         harness_errors.extend(extra.get('harness_errors', []))
+
+    # ---- shim validation: the same concrete samples through the stubbed pipeline (here) and the unpatched code (subprocess)
+    shim_val = dict(spec.get('shim_validation', {}))
+    if hasattr(mod, 'JOBFN') and not args.only and spec.get('validate_samples', True):
+        try:
+            shim_val.update(validate_samples(pid, mod, jobs, results, harness_errors))
+        except Exception as e:  # noqa
+            harness_errors.append('shim validation could not run: %r' % (e,))
 
     # ---- triage violations -------------------------------------------------------------------
     known = [k for k in load_known() if k.get('property') == pid and k.get('status') == 'known']
@@ -268,7 +338,7 @@ def main(argv):
         'solver': 'z3 ' + z3.get_version_string(),
         'reachability': reached,
         'events': events,
-        'shim_validation': spec.get('shim_validation', {}),
+        'shim_validation': shim_val,
         'extra': {k: v for k, v in extra.items() if k in ('summary', 'canaries', 'lemmas')},
         'samples': _jsonable(samples),
         'known_findings_seen': [k for k in known_hit],
